@@ -276,6 +276,60 @@ def run(loader, R, tier):
     R.floor("float-contagion entries", R.instances.get("R6.5", 0), 150)
     R.floor("nan entries", R.instances.get("R6.3", 0), 150)
     R.floor("extended-number entries", R.instances.get("R6.4", 0), 40)
+    both_operands_used(prog, R)
+    # R6.9: nan absorbs in the free div(): the shortcut for a zero divisor
+    # returns zoo only where the dividend has been excluded from being nan
+    # (and from being zero, which gives nan as well)
+    R.rule("R6.9", "div(a, 0) returns zoo only after excluding a == nan "
+                   "and a == 0")
+    from selib import sym as _sym
+    dfs = [f for f in prog.fn_by_qn("SymEngine::div")
+           if len(f.get("params", ())) == 2
+           and "RCP<const SymEngine::Basic>" in f["params"][0]["t"]]
+    if len(dfs) != 1:
+        raise AnalysisBroken("binary div() not found")
+    df = dfs[0]
+    a_name = df["params"][0]["n"]
+    nz = [0]
+
+    def cb9(n, guards, line):
+        if n.get("k") != "return" or "ComplexInf" not in show(n.get("e")
+                                                               or {}):
+            return
+        nz[0] += 1
+        no_nan = no_zero = False
+        for g in _sym.flatten_guards(guards):
+            if g[0] == "case":
+                continue
+            c, pol = g
+            t = show(c)
+            if a_name not in t:
+                continue
+            if ("NaN" in t or "is_nan" in t) and not pol:
+                no_nan = True
+            if "is_number_and_zero" in t and not pol:
+                no_zero = True
+        R.instance("R6.9", "div@%s" % n.get("l"), sample={
+            "nan_excluded": no_nan, "zero_excluded": no_zero})
+        if not (no_nan and no_zero):
+            R.violation(
+                "R6.9", "div", prog.loc(df, n.get("l")),
+                "div() returns zoo for a zero divisor without excluding "
+                "that the dividend is %s: div(nan, 0) is zoo while "
+                "nan->div(0) and mul(nan, 1/0) are nan" % (
+                    "nan" if not no_nan else "zero"))
+    from rules.c44 import _visit_returns
+    _visit_returns(df["body"], cb9)
+    if not nz[0]:
+        raise AnalysisBroken("div(): no zero-divisor shortcut found")
+    # R6.8: the Integer and the Rational overload of each Complex operation
+    # are one formula (their zero-divisor branches decide between nan and
+    # zoo the same way); shared with C05 R5.4
+    R.rule("R6.8", "Integer and Rational overloads of the Complex "
+                   "arithmetic members are the same formula (zero-divisor "
+                   "branches included)")
+    from rules.c05 import sibling_overloads
+    sibling_overloads(prog, R, "R6.8")
     R.rule("R6.6", "add()/mul() of two Numbers is addnum()/mulnum()")
     basic_level_numbers(prog, R)
 
@@ -336,6 +390,101 @@ def basic_level_numbers(prog, R):
                 "through the term dictionary, "
                 "whose result depends on operand order for inexact zeros "
                 "(add(0.0, 1) vs add(1, 0.0))" % (short(qn), core, core))
+
+
+def both_operands_used(prog, R):
+    """R6.7: in the binary add()/mul() every returning path has used both
+    operands (beyond asking what kind they are).  A path that returns after
+    looking at one operand only cannot be commutative: mul(0, oo) would be 0
+    while mul(oo, 0) is nan."""
+    R.rule("R6.7", "every returning path of the binary add()/mul() has used "
+                   "both operands")
+    TESTS = ("is_a", "is_a_Number", "is_a_sub", "eq", "neq",
+             "is_number_and_zero", "is_same_type")
+    nret = 0
+    for qn in ("SymEngine::add", "SymEngine::mul"):
+        fs = [f for f in prog.fn_by_qn(qn)
+              if len(f.get("params", ())) == 2
+              and "RCP<const SymEngine::Basic>" in f["params"][0]["t"]
+              and "vector" not in f["params"][0]["t"]]
+        if len(fs) != 1:
+            raise AnalysisBroken("binary %s not found" % qn)
+        f = fs[0]
+        ps = [p["n"] for p in f["params"]]
+
+        def uses(e):
+            """operands read in e outside pure kind tests"""
+            out = set()
+
+            def rec(x, in_test):
+                if not isinstance(x, dict):
+                    return
+                if x.get("k") == "call" and x.get("n") in TESTS:
+                    in_test = True
+                if x.get("k") == "ref" and x.get("d") == "param" \
+                        and x.get("n") in ps and not in_test:
+                    out.add(x["n"])
+                for v in x.values():
+                    if isinstance(v, dict):
+                        rec(v, in_test)
+                    elif isinstance(v, list):
+                        for y in v:
+                            rec(y, in_test)
+            rec(e, False)
+            return out
+
+        def scan(stmts, used):
+            nonlocal nret
+            used = set(used)
+            for st in stmts:
+                k = st.get("k")
+                if k == "return":
+                    nret += 1
+                    have = used | uses(st.get("e") or {})
+                    key = "%s@%s" % (short(qn), st.get("l"))
+                    R.instance("R6.7", key)
+                    if set(ps) - have:
+                        R.violation(
+                            "R6.7", short(qn), prog.loc(f, st.get("l")),
+                            "%s can return (line %s) without having used "
+                            "the operand `%s` for anything but a kind test: "
+                            "the result for (a, b) ignores what b is, so it "
+                            "differs from the result for (b, a) when b is "
+                            "an infinity, nan or an inexact number" % (
+                                short(qn), st.get("l"),
+                                sorted(set(ps) - have)[0]))
+                    return None
+                if k == "{}":
+                    r = scan(st.get("s", ()), used)
+                    if r is None:
+                        return None
+                    used = r
+                elif k == "if":
+                    used |= uses(st.get("c") or {})
+                    outs = []
+                    for part in ("t", "e"):
+                        b = st.get(part)
+                        if b is None:
+                            outs.append(set(used))
+                            continue
+                        r = scan(b.get("s", [b]) if b.get("k") == "{}"
+                                 else [b], used)
+                        if r is not None:
+                            outs.append(r)
+                    if not outs:
+                        return None
+                    used = set.intersection(*outs)
+                elif k in ("for", "forr", "while", "do"):
+                    b = st.get("b")
+                    if b:
+                        scan(b.get("s", [b]) if b.get("k") == "{}" else [b],
+                             used | uses(st.get("r") or {}))
+                    used |= uses(st.get("r") or {}) | uses(st.get("c") or {})
+                else:
+                    used |= uses(st)
+            return used
+        scan(f["body"].get("s", ()), set())
+    R.floor("returns of the binary add()/mul()", nret, 6)
 
 
 MANIFEST = dict(
